@@ -812,6 +812,10 @@ static PyObject* base_syrk(PyObject *self, PyObject *args, PyObject *kwrds)
   } else {
 
     void *z = NULL;
+
+    if (!sp_syrk[id])
+      PY_ERR(PyExc_NotImplementedError,
+          "syrk is not implemented for complex sparse matrices");
 #if PY_MAJOR_VERSION >= 3
     if (sp_syrk[id](uplo_, trans_,
         (ao ? a : One[id]),
